@@ -550,6 +550,12 @@ class ApplyMixin:
                 st.eff = self.fresh("eff", z3.IntSort())
                 continue
             st.heap[attr] = self.fresh(f"H_{attr}", z3.ArraySort(self.voc.Val, self.voc.Val))
+        # constructors write their own object only (verified at the definition: frame obligation `init-frame.<attr>`)
+        if c.opts.get("modifies_self") and "self" in env and env["self"].t is not None:
+            xv = self.bv("frx")
+            for attr in c.opts.get("modifies_self"):
+                st.facts.append(z3.ForAll([xv], z3.Implies(xv != env["self"].t, z3.Select(st.heap[attr], xv) == z3.Select(old.heap.get(attr, self.heap0(attr, old.epoch)), xv)),
+                                          patterns=[z3.Select(st.heap[attr], xv)]))
         # result: a function of the arguments for pure callees (determinism), else fresh
         rsort = c.sorts.get("result", "any")
         if c.opts.get("deterministic") and all(a.t is not None for a in env.values()):
@@ -632,6 +638,14 @@ class ApplyMixin:
         born = v.fn("born", v.Val, z3.IntSort())
         n = next(self.fresh_n)
         st.facts.append(born(obj) == n + 1)
+        # freshness: the new object is none of the values the function can already name, nor an element of its list-like variables
+        for name_, x in list(st.env.items()):
+            if x.t is None or x.pt in NATIVE or x.t.sort() != v.Val:
+                continue
+            st.facts.append(x.t != obj)
+            if x.pt in ("list", "tuple"):
+                j = self.bv("fj", z3.IntSort())
+                st.facts.append(z3.ForAll([j], v.sat(x.t, j) != obj, patterns=[v.sat(x.t, j)]))
         # all pre-existing symbolic inputs have born == 0 (assumed in the function's initial state)
 
     def call_closure(self, fnode: ast.FunctionDef, args, kwargs, st, fr, node) -> SV:
